@@ -34,7 +34,7 @@ def run(ctx):
         allb += ctx.behaviours("state", "Gen_WorldState", "Gen_WorldState_dir3.cfg", timeout=1800)
         if not ctx.quick():
             allb += ctx.behaviours("state", "Gen_WorldState", "Gen_WorldState.cfg", constants={"MaxOps": 2, "Depth": 2,
-                                   "Accts": '{"a", "b"}', "MaxSnaps": 1}, timeout=1800)
+                                   "Accts": '{"a", "b"}', "MaxSnaps": 1, "SnapSlots": "{1}"}, timeout=1800)
         for b in allb[:3]:
             ctx.sample([{k: s.get(k) for k in ("op", "a", "k", "v", "s", "res")} for s in b[:16]])
     inp = ctx.path("in", "behaviours.ndjson")
